@@ -171,6 +171,8 @@ def parse_operand(s):
     if s.startswith("move "): return ("move", parse_place(s[5:]))
     if s.startswith("no_retag "): return parse_operand(s[9:])
     if s.startswith("const "): return ("const", s[6:].strip())
+    if re.match(r"^[<\w]", s) and not s.startswith(("copy", "move")):
+        return ("fnitem", s)          # a function item used as a value, e.g. `SpanOrLiteral::<'_>::as_borrowed_or_rc`
     raise ValueError("operand " + s)
 
 
